@@ -140,17 +140,16 @@ func (a *ArrayAccess) String() string {
 // ObjectLiteral represents an object literal in the source code.
 type ObjectLiteral struct {
 	Properties map[string]Expr
+	Keys       []string // property names in source order
 }
 
 func (o *ObjectLiteral) String() string {
 	val := "{"
-	i := 0
-	for key, value := range o.Properties {
+	for i, key := range o.Keys {
 		if i > 0 {
 			val += ", "
 		}
-		val += fmt.Sprintf("%s: %s", key, value.String())
-		i++
+		val += fmt.Sprintf("%s: %s", key, o.Properties[key].String())
 	}
 	val += "}"
 	return val
